@@ -16,6 +16,8 @@ pub fn module(functions: Vec<(&str, Function)>) -> Module {
     Module { imports: vec![], submodules: vec![], functions: functions.into_iter().map(|(n, f)| (n.to_string(), f)).collect() }
 }
 fn s(len: usize, tag: usize) -> Card {
+    // len 0: the empty string (a zero-sized character buffer: its own allocator path)
+    if len == 0 { return Card::string_card(""); }
     let mut x = format!("s{}-", tag);
     while x.len() < len { x.push('x'); }
     Card::string_card(x)
